@@ -159,7 +159,7 @@ def run_case(case, rec):
                           r_ji=float(R[ij[1], ij[0]]) if ij else None, cond=cond, npairs=n * (n - 1), **tag)
                 # diagonal sanity for the explicit scheme: dv_i = I*dt/C_i exactly
                 if scheme == "fwd_euler":
-                    rec.check("charge", np.allclose(np.diag(R), dtx / cap, rtol=1e-9, atol=0), what="fwd_euler dv != I*dt/C",
+                    rec.check("charge", np.allclose(np.diag(R), dtx / cap, rtol=1e-9, atol=floor), what="fwd_euler dv != I*dt/C",
                               got=np.diag(R)[:4], want=(dtx / cap)[:4], **tag)
             # (b) uniform stays uniform
             try:
